@@ -159,6 +159,10 @@ typedef struct {
 } EIGENOBJ;
 
 ''' + rows + '\n')
+    par_hmf = os.path.join(workdir, 'tmpl_hmf.par')
+    if not os.path.exists(par_hmf):
+        txt = open(par).read().replace('method pca', 'method hmf').replace('run1d v8_8_8\n', 'run1d v8_8_8\nepsilon -1.0\nnonnegative 0\n')
+        open(par_hmf, 'w').write(txt)
     dump = os.path.join(workdir, 'tmpl.dump')
     if not os.path.exists(dump):
         rng = np.random.RandomState(5)
@@ -170,7 +174,7 @@ typedef struct {
         ivar = np.ones((8, npix)) * 100.0
         with open(dump, 'wb') as f:
             pickle.dump({'newflux': flux, 'newivar': ivar, 'newloglam': loglam}, f)
-    return {'resolve': resolve, 'par': par, 'dump': dump}
+    return {'resolve': resolve, 'par': par, 'par_hmf': par_hmf, 'dump': dump}
 
 
 def snapshot():
@@ -203,7 +207,8 @@ def one_run(target, paths, watched, run, workdir):
         for extra in ('_template_input',):
             if hasattr(S, extra):
                 codes.append(getattr(S, extra).__code__)
-        call = lambda: S.template_input(paths['par'], paths['dump'], flux=bool(run.get('args', {}).get('flux', False)), verbose=False)   # noqa: E731
+        parfile = paths['par_hmf'] if run.get('args', {}).get('method') == 'hmf' else paths['par']
+        call = lambda: S.template_input(parfile, paths['dump'], flux=bool(run.get('args', {}).get('flux', False)), verbose=False)   # noqa: E731
     inj = Injector(codes, run.get('fault'))
     os.environ = tr
     outcome = 'returned'
